@@ -45,9 +45,14 @@ def merge_only(argv):
         return None, e, og
 
 
-def run_main(argv, call_handler=True):
-    """The real main(): argparse from sys.argv, merge, handler.  Returns Invocation."""
-    og = load_ofxget()
+def run_main(argv, call_handler=True, reload=True):
+    """The real main(): argparse from sys.argv, merge, handler.  Returns Invocation.
+    reload=False: a further invocation inside the already loaded module (module-level state is kept,
+    the configuration files are NOT re-read - use it only when they have not changed)."""
+    if reload:
+        og = load_ofxget()
+    else:
+        import ofxtools.scripts.ofxget as og
     inv = Invocation()
     real = dict(og.REQUEST_HANDLERS)
 
@@ -60,7 +65,8 @@ def run_main(argv, call_handler=True):
         return handler
 
     for k, fn in real.items():
-        og.REQUEST_HANDLERS[k] = wrap(k, fn)
+        og.REQUEST_HANDLERS[k] = wrap(k, getattr(fn, "_vf_real", fn))
+        og.REQUEST_HANDLERS[k]._vf_real = getattr(fn, "_vf_real", fn)
     out = io.StringIO()
     old_argv = sys.argv
     sys.argv = ["ofxget"] + list(argv)
